@@ -413,7 +413,9 @@ class Runner:
                 continue
             # main / litmus-pass
             if q.inline_witness:
-                if (r.get('witness_unreached') and q.witness == 'all') or not r.get('witness_reached'):
+                real = [x for x in r['failed'] if not x['desc'].startswith('WITNESS') and 'unwinding assertion' not in x['desc']]
+                # a genuine assertion failure is a violation even if it also cuts the path before the witness point (library panic + trap)
+                if not real and ((r.get('witness_unreached') and q.witness == 'all') or not r.get('witness_reached')):
                     broken.append((q, 'reachability witness not reachable (vacuous harness): %s' % (r.get('witness_unreached') or 'no witness point')[:5])); continue
                 r['failed'] = [x for x in r['failed'] if not x['desc'].startswith('WITNESS')]
                 descs = [x['desc'] for x in r['failed']]
